@@ -102,6 +102,17 @@ pub struct GoalCfg {
     /// false: `sample_goal` returns the targets in rotation and consumes no randomness (the shape
     /// Python goals have); true: draws inside a ball from the *passed* generator.
     pub rng_sampler: bool,
+    /// if true the predicate is stricter than "inside a ball": the first flat coordinate must
+    /// also be >= the target's (a half ball), while `distance_goal` keeps reporting the distance
+    /// to the full ball - a planner that tested `distance_goal == 0` instead of `is_satisfied`
+    /// would stop at states that do not satisfy the goal
+    #[serde(default)]
+    pub half: bool,
+}
+
+/// The goal predicate on flat states, given the space's own distance to each target.
+pub fn goal_pred(g: &GoalCfg, s_flat: &[f64], dist_to: impl Fn(usize) -> f64) -> bool {
+    (0..g.targets.len()).any(|i| dist_to(i) <= g.radius && (!g.half || s_flat[0] >= g.targets[i][0]))
 }
 
 pub struct WGoal<K: Kind> {
@@ -126,9 +137,8 @@ impl<K: Kind> WGoal<K> {
         }
     }
     pub fn satisfied_pure(&self, s: &K::S) -> bool {
-        self.targets
-            .iter()
-            .any(|t| self.space.distance(s, t) <= self.gcfg.radius)
+        let flat = if self.gcfg.half { K::enc(s) } else { vec![0.0] };
+        goal_pred(&self.gcfg, &flat, |i| self.space.distance(s, &self.targets[i]))
     }
 }
 
@@ -186,6 +196,8 @@ impl<K: Kind> GoalSampleableRegion<K::S> for WGoal<K> {
                 }
             }
         };
+        // soundness by construction also for half-ball goals
+        let out = if self.satisfied_pure(&out) { out } else { self.targets[k % n].clone() };
         self.rec.borrow_mut().goal_samples.push(K::enc(&out));
         Ok(out)
     }
